@@ -113,3 +113,37 @@ def witness_F13():
     except ValueError:
         return True
     return False
+
+
+# ---- F22/F21 (C18): tiny spectra are not refused up front
+def tiny_spectrum_not_refused_up_front(entry):
+    i = entry.get("input")
+    if not (isinstance(i, dict) and entry.get("what") == "aborts"):
+        return False
+    opts = i.get("options", {})
+    size = opts.get("data")
+    ent = i.get("entry", "")
+    obs = str(entry.get("observed"))
+    table = {
+        "calculate_drt[tr-nnls]": (("n1",), "IndexError"),
+        "perform_kramers_kronig_test": (("n1", "n2", "n3", "tiny"), "ValueError"),
+        "perform_zhit": (("n1",), "ValueError"),
+        "calculate_drt[lm]": (("tiny", "n5"), "TypeError"),
+    }
+    if ent in table and size in table[ent][0] and obs.startswith(table[ent][1]):
+        if ent == "calculate_drt[lm]" and opts.get("model_order_method") != "pseudo_chisqr":
+            return False
+        return True
+    return False
+
+
+def witness_F22():
+    import numpy as np
+    from pyimpspec import DataSet, calculate_drt
+    try:
+        calculate_drt(DataSet(np.array([1.0]), np.array([1 + 1j])), method="tr-nnls")
+    except IndexError:
+        return True
+    except Exception:
+        return False
+    return False
